@@ -324,6 +324,21 @@ def _body(ck: Checker, prog: Program, q: str):
                 got["raw_spectra[hor_idx]"] = ex.rows[k_txt]
             elif idx == sp.expand(C03.CNT_ + C03.k_):
                 got["raw_spectra[ver_idx]"] = ex.rows[k_txt]
+        # rows collected in two lists and stacked per group: first list = rows k, second list = rows count + k
+        lists = None
+        for st_ in b.group_loop.body:
+            if isinstance(st_, ast.Assign) and isinstance(st_.value, ast.Call) and len(st_.value.args) == 4 and isinstance(st_.value.args[1], ast.Name):
+                lists = C03.raw_list_form(b, st_.value.args[1].id) or lists
+        if lists is not None:
+            app = dict(getattr(ex, "appended", {}))
+            for nm_ in lists[:2]:
+                ev_ = ex.T.env.get(nm_)
+                if nm_ not in app and isinstance(ev_, sp.Tuple):
+                    app[nm_] = list(ev_)
+            if len(app.get(lists[0], [])) == 1:
+                got["raw_spectra[hor_idx]"] = app[lists[0]][0]
+            if len(app.get(lists[1], [])) == 1:
+                got["raw_spectra[ver_idx]"] = app[lists[1]][0]
         if single:
             want = {"raw_spectra[hor_idx]": sp.Abs(rfft_(taper(proj(NS, EW, ex.T.sym("settings.azimuth_in_degrees"))))),
                     "raw_spectra[ver_idx]": sp.Abs(rfft_(taper(VT)))}
